@@ -154,6 +154,9 @@ func (b *builder) base(o baseOpt) {
 			}
 		}
 		c.Listen = fmt.Sprintf("%s:%d", pick(r, "0.0.0.0", sc.HostIP), 60010+i)
+		if sc.HostIP2 != "" && r.Intn(4) == 0 {
+			c.Listen = fmt.Sprintf("%s:%d", sc.HostIP2, 60010+i) // events come in on the host's other address: no business of outgoing requests
+		}
 		c.Debug = debug
 		if r.Intn(8) == 0 {
 			c.NilDevs = true
